@@ -242,6 +242,53 @@ func checkC18(c *Check) {
 		r1.Decide(obj.Val().String() == fmt.Sprint(idx), "compiler."+row.cst, obj.Pos(), fmt.Sprintf("= %d, position of %s.%s", idx, row.cstruct, row.field), fmt.Sprintf("%s = %s but %s.%s is field %d of the C struct", row.cst, obj.Val(), row.cstruct, row.field, idx))
 	}
 
+	// ---------------- R18.8 natural alignment ----------------
+	// C sees every aggregate (Text, lists, Variable, Kombinationen) as an ordinary C struct with natural alignment: the
+	// generator never packs a struct type - neither the llir type (Packed field) nor its LLVM mirror that yields type_size
+	// (second argument of llvm.StructType)
+	r8 := c.Rule("R18.8", "no aggregate type of the generator is packed (C reads them as naturally aligned structs)", 4)
+	L.ForEachFunc([]string{"src/compiler"}, func(fi *FuncInfo) {
+		q := L.QName(fi.Obj)
+		n := 0
+		ast.Inspect(fi.Decl.Body, func(nd ast.Node) bool {
+			switch x := nd.(type) {
+			case *ast.CallExpr:
+				fn := Callee(info, x)
+				if fn == nil || fn.Pkg() == nil || !strings.Contains(fn.Pkg().Path(), "llvm") {
+					return true
+				}
+				if (fn.Name() == "StructType" || fn.Name() == "StructTypeInContext") && len(x.Args) >= 2 {
+					n++
+					packed := x.Args[len(x.Args)-1]
+					tv := info.Types[packed]
+					isFalse := tv.Value != nil && tv.Value.String() == "false"
+					r8.Decide(isFalse, fmt.Sprintf("%s|llvm.%s #%d", q, fn.Name(), n), x.Pos(), "packed = false", "the LLVM mirror of an aggregate is built with packed = "+L.Src(packed)+": field offsets, size and list stride differ from the C struct the runtime and extern functions use")
+				}
+			case *ast.AssignStmt:
+				for i, l := range x.Lhs {
+					if v := fieldOf(info, l); v != nil && v.Name() == "Packed" && v.Pkg() != nil && strings.Contains(v.Pkg().Path(), "llir/llvm/ir/types") {
+						var rhs ast.Expr
+						if len(x.Rhs) == len(x.Lhs) {
+							rhs = x.Rhs[i]
+						}
+						tv := info.Types[rhs]
+						isFalse := rhs != nil && tv.Value != nil && tv.Value.String() == "false"
+						r8.Decide(isFalse, q+"|Packed = "+L.Src(rhs), x.Pos(), "not packed", "an aggregate type of the generator is marked packed: its field offsets and size differ from the naturally aligned C struct that extern functions and the runtime read and write")
+					}
+				}
+			case *ast.KeyValueExpr:
+				if id, ok := x.Key.(*ast.Ident); ok && id.Name == "Packed" {
+					if v, ok := info.Uses[id].(*types.Var); ok && v.IsField() && v.Pkg() != nil && strings.Contains(v.Pkg().Path(), "llir/llvm/ir/types") {
+						tv := info.Types[x.Value]
+						isFalse := tv.Value != nil && tv.Value.String() == "false"
+						r8.Decide(isFalse, q+"|Packed: "+L.Src(x.Value), x.Pos(), "not packed", "an aggregate type of the generator is marked packed: its layout differs from the C struct")
+					}
+				}
+			}
+			return true
+		})
+	})
+
 	// ---------------- R18.2 runtime bindings ----------------
 	r2 := c.Rule("R18.2", "declared runtime functions exist in C with equal arity, kinds and return class", 20)
 	L.ForEachFunc([]string{"src/compiler"}, func(fi *FuncInfo) {
